@@ -47,6 +47,13 @@ def run(tier, v):
         "tls_split_hello_then_appdata": (443, [c(hex=hello[:40].hex()), c(hex=hello[40:].hex()), c(kind="tls_appdata", n=nseg, len=1400)]),
         "tls_hello_then_random": (443, [c(hex=hello.hex()), c(kind="random", n=nseg, len=1400)]),
         "tls_hello_retransmitted": (443, [c(hex=hello[:60].hex(), n=nseg, retx=True)]),
+        # a complete first handshake record that does not parse (fragmented ClientHello: handshake length beyond the record;
+        # garbage body; empty record; truncated hello body), then the connection goes on
+        "tls_fragmented_hello_then_appdata": (443, [c(hex=(bytes([0x16, 3, 1, 0, 32, 1, 0, 1, 0]) + bytes(28)).hex()), c(kind="tls_appdata", n=nseg, len=1400)]),
+        "tls_garbage_hello_then_random": (443, [c(hex=(bytes([0x16, 3, 1, 0, 32, 1, 0, 0, 28]) + b"\xff" * 28).hex()), c(kind="random", n=nseg, len=1400)]),
+        "tls_empty_record_then_appdata": (443, [c(hex=bytes([0x16, 3, 1, 0, 0]).hex()), c(kind="tls_appdata", n=nseg, len=1400)]),
+        "tls_truncated_hello_body_then_appdata": (443, [c(hex=(bytes([0x16, 3, 1, 0, 44, 1, 0, 0, 40, 3, 3]) + bytes(32) + bytes([32, 1, 2, 3, 4, 5])).hex()), c(kind="tls_appdata", n=nseg, len=1400)]),
+        "tls_two_hellos_then_appdata": (443, [c(hex=(hello + hello).hex()), c(hex=hello.hex(), n=50), c(kind="tls_appdata", n=nseg, len=1400)]),
         "tls_appdata_from_server_after_hello": (443, [c(hex=hello.hex()), sv(kind="tls_appdata", n=nseg, len=1400)]),
         "http_exchange_then_response_body": (80, [c(hex=REQ.hex()), sv(hex=RESP.hex()), sv(kind="bytes_b", n=nseg, len=1400)]),
         "http_exchange_then_binary_both_ways": (80, [c(hex=REQ.hex()), sv(hex=RESP.hex())] + [x for _ in range(min(nseg, 3000) // 2) for x in (c(kind="random", n=1, len=1400), sv(kind="random", n=1, len=1400))]),
